@@ -41,7 +41,12 @@ def select(behaviours, cap_interesting, cap_other, rng):
 
 
 def variants(s, rng):
-    """Same schedule, different ways of being 'a different key': variables hash / header hash / request id."""
+    """Same schedule, different ways of being 'a different key': variables hash / header hash / request id.
+    In a third of the schedules one request additionally has a broken client connection (its writer fails): its own
+    problem only - nobody else may see that error and the shared result is still published."""
+    if rng.random() < 0.34:
+        s = json.loads(json.dumps(s))
+        rng.choice(s["reqs"])["wfail"] = True
     keys = sorted({r["key"] for r in s["reqs"]})
     if len(keys) < 2:
         return s
